@@ -605,8 +605,45 @@ fn lattice_clock(t: &mut Tally, st: &Seeded) {
     run_batch(t, &failing, "failing-clock", cases);
 }
 
+/// several ports of one instance on one segment: every frame reaches all of them (identical
+/// bytes), for every masterOnly pattern, sender and delivery order, followed by BMCA runs
+fn lattice_shared_segment(t: &mut Tally) {
+    for (name, mo) in [("shared-2p", vec![false, false]), ("shared-2p-mo2", vec![false, true]), ("shared-2p-mo1", vec![true, false]), ("shared-2p-mo12", vec![true, true]), ("shared-3p-mo2", vec![false, true, false]), ("shared-3p-mo13", vec![true, false, true])] {
+        let mut node = NodeSpec::default();
+        node.ports = mo.iter().map(|m| PortSpec { master_only: *m, ..Default::default() }).collect();
+        let mut cfg = WorldCfg { node: node.clone(), kalman: true, ..Default::default() };
+        cfg.peers = vec![Peer::gm(1, 1), Peer::gm(2, 250), own_clock_peer(&node, 1)];
+        let n = mo.len();
+        let st = Seeded { name, cfg, seed: vec![] };
+        let mut cases = vec![];
+        let senders = [Peer::gm(1, 1), Peer::gm(2, 250), own_clock_peer(&node, 1), { let mut p = Peer::gm(3, 1); p.steps_removed = 254; p }];
+        for s in &senders {
+            for reverse in [false, true] {
+                for rounds in [1usize, 2, 3] {
+                    let mut c = vec![];
+                    for r in 0..rounds {
+                        let bytes = rc::encode(&s.announce_msg(100 + r as u16));
+                        let order: Vec<usize> = if reverse { (0..n).rev().collect() } else { (0..n).collect() };
+                        for p in order {
+                            c.push(raw(p, &bytes, false));
+                        }
+                    }
+                    c.push(Ev::Bmca);
+                    for p in 0..n {
+                        c.push(Ev::T(p, Timer::Announce));
+                    }
+                    c.push(Ev::Bmca);
+                    cases.push(c);
+                }
+            }
+        }
+        run_batch(t, &st, "shared-segment", cases);
+    }
+}
+
 pub fn run_lattice(tier: Tier) -> (Tally2, Vec<Violation>) {
     let mut t = Tally::default();
+    lattice_shared_segment(&mut t);
     for st in seeded_states() {
         let n = st.name;
         lattice_framing(&mut t, &st);
